@@ -18,6 +18,7 @@ import (
 	"strings"
 	"sync"
 	"testing"
+	"time"
 )
 
 // Failure describes one violation of a property on one case.
@@ -430,9 +431,32 @@ func Eval[C any](t TB, property, source string, c C, check func(C) Outcome) {
 	var o Outcome
 	clear := MarkPending(property, cj)
 	defer clear()
-	if f := Guard(func() *Failure { o = check(c); return nil }); f != nil {
-		o.Fail = f
-		o.Labels = append(o.Labels, "panicked")
+	// The check runs on its own goroutine: a library call that never returns is reported as a
+	// violation of the property under test (every statement presupposes that the call returns)
+	// instead of stalling the shard until the job's time limit turns it into an infrastructure
+	// fault. The limit (VERIF_HANG_S, default 600 s) is two to five orders of magnitude above
+	// what any single case of any check takes.
+	type result struct {
+		o Outcome
+		f *Failure
+	}
+	done := make(chan result, 1)
+	go func() {
+		var lo Outcome
+		f := Guard(func() *Failure { lo = check(c); return nil })
+		done <- result{lo, f}
+	}()
+	limit := time.Duration(EnvInt("VERIF_HANG_S", 600)) * time.Second
+	select {
+	case r := <-done:
+		o = r.o
+		if r.f != nil {
+			o.Fail = r.f
+			o.Labels = append(o.Labels, "panicked")
+		}
+	case <-time.After(limit):
+		o.Labels = append(o.Labels, "hung")
+		o.Fail = &Failure{Kind: "hang", Msg: fmt.Sprintf("the check's calls into the library did not return within %v", limit)}
 	}
 	h := hashBytes(cj)
 	if o.Fail == nil {
